@@ -8,7 +8,7 @@ FILES = ('include/yaclib/algo/detail/', 'src/algo/', 'include/yaclib/async/promi
 
 
 def run(ctx):
-    fbs = ctx.facts(['K17', 'K20'], kinds=('probe', 'lib'), only=r'p_async\.cpp$|src/')
+    fbs = ctx.facts(['K17', 'K20'], kinds=('probe', 'lib'), only=r'p_async\.cpp$|src/', tests=r'/test/')
     rr = ctx.rule('R-READY', 'readiness predicates are false in the abstract states Empty and Callback of the '
                   'completion word and true in Result', minimum=4)
     rw = ctx.rule('R-WORD', 'every operation on BaseCore::_callback is a role of its protocol (kResult only by an '
